@@ -208,6 +208,8 @@ pub fn c12_exact_4_bytes() { let acc = uci_exact_case::<4>(); vcover!(acc, "acce
 pub fn c12_exact_5_bytes() { let acc = uci_exact_case::<5>(); vcover!(acc, "accepted 5-byte string reachable"); }
 #[cfg_attr(kani, kani::proof)] #[cfg_attr(kani, kani::unwind(9))] #[cfg_attr(verif_replay, test)]
 pub fn c12_exact_6_bytes() { let acc = uci_exact_case::<6>(); vcover!(!acc, "rejected 6-byte string reachable"); }
+#[cfg_attr(kani, kani::proof)] #[cfg_attr(kani, kani::unwind(9))] #[cfg_attr(verif_replay, test)]
+pub fn c12_exact_7_bytes() { let acc = uci_exact_case::<7>(); vcover!(!acc, "rejected 7-byte string reachable"); }
 /// shorter strings are never accepted
 #[cfg_attr(kani, kani::proof)] #[cfg_attr(kani, kani::unwind(9))] #[cfg_attr(verif_replay, test)]
 pub fn c12_short_strings_rejected() {
